@@ -919,10 +919,22 @@ func (x *Exec) atReturn(s *State, ret Val) {
 	}
 	// frame: every write to a caller-visible object must be covered by assigns
 	if x.c.HasAssigns {
-		allowed := x.assignRecs(s, x.c.Assigns, x.specEnvEntry(s))
+		var plainAssigns []string
+		fsAllowed := false
+		for _, a := range x.c.Assigns {
+			if strings.TrimSpace(a) == "fs" {
+				fsAllowed = true
+				continue
+			}
+			plainAssigns = append(plainAssigns, a)
+		}
+		if _, wrote := s.writes["ghost:fs"]; wrote && !fsAllowed {
+			x.oblige(s, "frame", "ghost:fs", TFalse, nil, "file-system effect by a function whose assigns clause does not list fs")
+		}
+		allowed := x.assignRecs(s, plainAssigns, x.specEnvEntry(s))
 		for _, k := range sortedWriteKeys(s.writes) {
 			rec := s.writes[k]
-			if !rec.obj.pre || rec.obj.kind == "chan" {
+			if !rec.obj.pre || rec.obj.kind == "chan" || rec.obj.name == "ghost:fs" {
 				continue
 			}
 			if coveredBy(rec, allowed) {
@@ -1256,6 +1268,10 @@ func (x *Exec) havocLoopState(s *State, li *loopInfo, b *ssa.BasicBlock, writes 
 	saved := s.writes
 	s.writes = map[string]writeRec{}
 	for _, k := range sortedWriteKeys(writes) {
+		if k == "ghost:fs" {
+			x.fsHavoc(s, tag)
+			continue
+		}
 		x.havoc(s, writes[k], tag)
 	}
 	for k, v := range s.writes {
